@@ -1,5 +1,23 @@
 package main
 
-import "verifharness/c06"
+import (
+	"verifharness/c06"
+	"verifharness/c15"
+	"verifharness/c18"
+	"verifharness/common"
+)
 
-func init() { runners["C06"] = c06.Run }
+func init() {
+	runners["C06"] = func(r *common.Run) error {
+		if err := c06.Run(r); err != nil {
+			return err
+		}
+		if r.Replay == "" && !r.Race() {
+			// the extension helpers that block on a correlated reply
+			c15.RunWaits(r)
+			c18.RunWaits(r)
+		}
+		return nil
+	}
+	facts["C06"] = func(repo string) (string, error) { return c15.FactsNS(repo, "C06") }
+}
